@@ -173,6 +173,12 @@ func c03Finder(run *Run, j *histJob) {
 		sig := "C03:silence"
 		what := "no reply although the client did not disconnect and no filter terminated the stream"
 		switch {
+		case sp.Tag == "upfilter-reset-after-terminate" && r.Done:
+			sig = "C03:silence:upstream-reset-seen-in-upfilter-after-terminate"
+			what = "TerminateStream, then an upstream reset while the send filters run: processError of phase UpFilter returns (End, ErrExit), the worker returns without reply and without cleaning the stream"
+		case sp.Tag == "global-timer-lost-before-retry" && !r.Done:
+			sig = "C03:hang:global-timer-expired-unheard-before-retry"
+			what = "the global timer expires while a 5xx response is being processed (CAS lost), the response is then retried: the new attempt has no global timer and a silent upstream hangs the request"
 		case !r.Done && sp.retriedAfterPoolFailWithBody():
 			sig = "C03:hang:retry-after-connect-failure-with-body:no-global-timer"
 			what = "request with body whose first attempt failed to connect: the retry never arms the global time-out; the upstream stays silent and the request hangs past the configured time-out"
@@ -360,6 +366,12 @@ func c03(args []string) int {
 	specs = append(specs,
 		&Spec{Route: "forward", NHosts: 2, RouteGlobalMs: 100, HasData: true, Pool: []string{"connfail"}},
 		&Spec{Route: "forward", NHosts: 2, RouteGlobalMs: 400, NumRetries: 12, Pool: strings.Split(strings.Repeat("connfail,", 13)+"connfail", ",")},
+		&Spec{Tag: "upfilter-reset-after-terminate", Route: "forward", NHosts: 2, RouteGlobalMs: 200,
+			Filters: []FilterSpec{{Phase: 0}, {Send: true, DelayMs: 30}},
+			Events:  []Event{{AtMs: 40, Kind: "terminate", Code: 403}, {AtMs: 55, Kind: "upreset", K: 0, Reason: "remotereset"}}},
+		&Spec{Tag: "global-timer-lost-before-retry", Route: "forward", NHosts: 2, RouteGlobalMs: 60, RetryOn: true, NumRetries: 1,
+			Filters: []FilterSpec{{Send: true, DelayMs: 30}},
+			Events:  []Event{{AtMs: 40, Kind: "upresp", K: 0, Status: 503}}},
 	)
 	jobs := make([]*histJob, len(specs))
 	for i, sp := range specs {
